@@ -10,8 +10,9 @@ SRC="$1"; ID="$2"; PROP="$3"; shift 3
 EXTRA=("$@")
 W="$(mktemp -d /var/tmp/verif-intake.XXXXXX)"; trap 'rm -rf "$W"' EXIT
 mkdir -p "$W/clean" "$W/mut"
-(cd /repo && git archive HEAD) | tar -x -C "$W/clean"
-(cd /repo && git archive HEAD) | tar -x -C "$W/mut"
+BASE="${BASE:-HEAD}"   # the commit the agent's worktree was created from
+(cd /repo && git archive "$BASE") | tar -x -C "$W/clean"
+(cd /repo && git archive "$BASE") | tar -x -C "$W/mut"
 [ -f "$SRC/patch.diff" ] || { echo "no patch.diff in $SRC"; exit 2; }
 (cd "$W/mut" && patch -p1 -s < "$SRC/patch.diff") || { echo "INTAKE $ID: patch does not apply"; exit 1; }
 (cd "$W/mut" && go build ./... ) || { echo "INTAKE $ID: does not compile"; exit 1; }
@@ -30,7 +31,8 @@ if [ "$suite" = pass ] && [ $dm -ne 0 ] && [ $dc -eq 0 ]; then
   [ -f "$SRC/README.md" ] && cp "$SRC/README.md" "$VERIF/seeded/$ID/AGENT_README.md"
   needs="$(grep -i -m1 -A2 'manifest' "$SRC/README.md" 2>/dev/null | tr '\n' ' ' | cut -c1-400)"
   jq -n --arg id "$ID" --arg p "$PROP" --arg needs "$needs" --arg demo "go test -vet=off -count=1 ${EXTRA[*]} -run '^($names)\$' ." \
-     '{id:$id, property:$p, origin:"sub-agent (given only the property text and a scratch worktree)", needs:$needs,
+     --arg base "$(git -C /repo rev-parse --short "$BASE")" \
+     '{id:$id, property:$p, base_commit:$base, origin:"sub-agent (given only the property text and a scratch worktree)", needs:$needs,
        verified:{suite_with_change:"pass", demo_with_change:"fails", demo_without_change:"passes", demo_cmd:$demo}}' > "$VERIF/seeded/$ID/meta.json"
   echo "INTAKE $ID: kept in $VERIF/seeded/$ID"
 else
